@@ -255,8 +255,12 @@ def mkey(s):
     return json.dumps(s.mapping, default=repr)
 
 
+TINY, SMALL, MED, FULL = 0, 1, 2, 3
+LEVEL_NAMES = {TINY: "TINY", SMALL: "SMALL", MED: "MED", FULL: "FULL"}
+
+
 def alphabet(cfg):
-    """[(op, level)] level 0 = SMALL (also in MED and FULL), 1 = MED (also in FULL), 2 = FULL only"""
+    """[(op, level)]: the alphabets are nested, TINY < SMALL < MED < FULL; level = the smallest alphabet holding the op"""
     depth, dialect, normalize, initial = cfg
     t1, t2, t3, u, mid = names_for(depth)
     sv = stored_variant(cfg)
@@ -266,76 +270,78 @@ def alphabet(cfg):
     hit_a = q_o + ("A" if sv == "upper" else "a") + q_o
     qa = QUOTE[dialect] + "a" + QUOTE[dialect]
     st = lambda n: spell(n, sv, dialect)  # noqa: E731  (find does not normalise: use the stored spelling)
-    second = t2 or u
+    second = t2 or u  # depth >= 2: a second table called t (makes "t" ambiguous); depth 1: another table
     ops = []
 
     def add(op, level):
         if op not in [o for o, _ in ops]:
             ops.append((op, level))
 
+    # TINY
+    add(("add", t1, "B", "dict"), TINY)
+    add(("add", second, "B", "dict"), TINY)
+    add(("cn", "t", "str"), TINY)
+    add(("gct", "t", "a", "str", None), TINY)
+    add(("has", "t", qa, "colobj", None), TINY)
+    add(("find", st("t"), True, False), TINY)
     # SMALL
-    add(("add", t1, "A", "dict"), 0)
-    add(("add", t1, "B", "dict"), 0)
-    add(("add", second, "B", "dict"), 0)
-    add(("add", t1, "N", "dict"), 0)
-    add(("cn", "t", "str"), 0)
-    add(("cn", t1, "str"), 0)
-    add(("gct", "t", "a", "str", None), 0)
-    add(("has", "t", qa, "colobj", None), 0)
-    add(("find", st("t"), True, False), 0)
+    add(("add", t1, "A", "dict"), SMALL)
+    add(("add", t1, "N", "dict"), SMALL)
+    add(("cn", t1, "str"), SMALL)
     # MED
-    add(("add", t1, "C", "dict"), 1)
-    add(("add", t1, "AB", "dict"), 1)
-    add(("add", u, "A", "dict"), 1)
-    add(("add", second, "A", "dict"), 1)
+    add(("add", t1, "C", "dict"), MED)
+    add(("add", t1, "AB", "dict"), MED)
+    add(("add", u, "A", "dict"), MED)
     if t3:
-        add(("add", t3, "B", "dict"), 1)
-        add(("cn", mid, "str"), 1)
-    add(("gct", t1, "a", "str", None), 1)
-    add(("gct", hit_t, hit_a, "str", other), 1)
-    add(("has", "t", "a", "str", None), 1)
-    add(("has", t1, "b", "str", None), 1)
-    add(("find", st(t1), True, False), 1)
-    add(("find", st("t"), False, False), 1)
-    add(("find", st("t"), True, True), 1)
-    add(("cn", "t", "tableobj"), 1)
-    add(("cn", spell("t", "upper", dialect), "str"), 1)
+        add(("add", t3, "B", "dict"), MED)
+        add(("cn", mid, "str"), MED)
+    add(("gct", t1, "a", "str", None), MED)
+    add(("gct", hit_t, hit_a, "str", other), MED)
+    add(("has", "t", "a", "str", None), MED)
+    add(("find", st(t1), True, False), MED)
+    add(("find", st("t"), True, True), MED)
+    add(("cn", "t", "tableobj"), MED)
     # FULL
+    add(("add", second, "A", "dict"), FULL)
     for n in universe_tables(depth):
-        for cs in COLSETS:
-            add(("add", n, cs, "dict"), 2)
+        for cs in (COLSETS if n == t1 else ("A", "B", "N")):
+            add(("add", n, cs, "dict"), FULL)
     for v in ("upper", "qlower", "qupper"):
-        add(("add", spell(t1, v, dialect), "B", "dict"), 2)
-    add(("add", t1, "AB", "str"), 2)
-    add(("add", t1, "AB", "list"), 2)
-    add(("add", t1, "B", "tableobj"), 2)
-    add(("add", t1, "B", "nomatch"), 2)
-    add(("add", u, "B", "nomatch"), 2)
+        add(("add", spell(t1, v, dialect), "B", "dict"), FULL)
+    add(("add", t1, "AB", "str"), FULL)
+    add(("add", t1, "AB", "list"), FULL)
+    add(("add", t1, "B", "tableobj"), FULL)
+    add(("add", t1, "B", "nomatch"), FULL)
+    add(("add", u, "B", "nomatch"), FULL)
     if depth >= 2:
-        add(("add", "u", "B", "nomatch"), 2)  # fewer parts than the schema's depth  -> mixed-depth mapping
+        add(("add", "u", "B", "nomatch"), FULL)  # fewer parts than the schema's depth  -> mixed-depth mapping
     if depth <= 2:
-        add(("add", "x1." + u, "B", "nomatch"), 2)  # more parts than the schema's depth -> mixed-depth mapping
+        add(("add", "x1." + u, "B", "nomatch"), FULL)  # more parts than the schema's depth -> mixed-depth mapping
     for n in partial_names(depth):
-        add(("cn", n, "str"), 2)
-        add(("find", st(n), True, False), 2)
+        add(("cn", n, "str"), FULL)
+        add(("find", st(n), True, False), FULL)
     for n in dict.fromkeys(["t", mid or "t", t1]):
-        add(("gct", n, "a", "str", None), 2)
-        add(("has", n, "a", "str", None), 2)
-        add(("gct", n, "b", "str", None), 2)
-        for v in ("upper", "qlower", "qupper"):
-            add(("cn", spell(n, v, dialect), "str"), 2)
-        add(("cn", n, "tableobj"), 2)
-        add(("cn", spell(n, "upper", dialect), "tableobj"), 2)
-        add(("has", n, qa, "colobj", None), 2)
-        add(("has", n, "a", "colobj", None), 2)
-        add(("has", n, "A", "colobj", None), 2)
-        add(("gct", n, qa, "colobj", None), 2)
-        add(("gct", n, "A", "str", None), 2)
-        add(("gct", spell(n, "q" + sv, other), hit_a, "str", other), 2)
-        add(("has", spell(n, "q" + sv, other), hit_a, "str", other), 2)
-        add(("find", st(n), False, False), 2)
-        add(("find", st(n), True, True), 2)
-        add(("find", spell(n, "upper" if sv == "lower" else "lower", dialect), True, False), 2)
+        add(("gct", n, "a", "str", None), FULL)
+        add(("has", n, "a", "str", None), FULL)
+        add(("cn", spell(n, "upper", dialect), "str"), FULL)
+        if n == mid:
+            continue
+        add(("gct", n, "b", "str", None), FULL)
+        add(("has", n, "b", "str", None), FULL)
+        for v in ("qlower", "qupper"):
+            add(("cn", spell(n, v, dialect), "str"), FULL)
+        add(("cn", n, "tableobj"), FULL)
+        add(("cn", spell(n, "upper", dialect), "tableobj"), FULL)
+        add(("has", n, qa, "colobj", None), FULL)
+        add(("has", n, "a", "colobj", None), FULL)
+        add(("has", n, "A", "colobj", None), FULL)
+        add(("gct", n, qa, "colobj", None), FULL)
+        add(("gct", n, "A", "str", None), FULL)
+        add(("gct", spell(n, "q" + sv, other), hit_a, "str", other), FULL)
+        add(("has", spell(n, "q" + sv, other), hit_a, "str", other), FULL)
+        add(("find", st(n), False, False), FULL)
+        add(("find", st(n), True, True), FULL)
+        add(("find", spell(n, "upper" if sv == "lower" else "lower", dialect), True, False), FULL)
     return ops
 
 
@@ -409,11 +415,11 @@ def configs():
             for initial in ("one", "empty")]
 
 
-# (alphabet level, min length, max length) per tier; alphabets are nested, so a level only runs the lengths the
-# bigger alphabet has not covered
+# (alphabet, min length, max length) per tier and initial state; the alphabets are nested, so an alphabet only runs
+# the lengths the next bigger one has not covered
 PLAN = {
-    "quick": {"one": [(2, 0, 2), (1, 3, 3), (0, 4, 4)], "empty": [(2, 0, 2), (1, 3, 3)]},
-    "thorough": {"one": [(2, 0, 3), (1, 4, 4), (0, 5, 6)], "empty": [(2, 0, 3), (1, 4, 4), (0, 5, 5)]},
+    "quick": {"one": [(FULL, 0, 2), (MED, 3, 3), (SMALL, 4, 4)], "empty": [(FULL, 0, 2), (MED, 3, 3)]},
+    "thorough": {"one": [(FULL, 0, 2), (MED, 3, 4), (SMALL, 5, 5), (TINY, 6, 6)], "empty": [(FULL, 0, 2), (MED, 3, 3), (SMALL, 4, 4)]},
 }
 
 
@@ -710,8 +716,8 @@ def run(tier, seed):
     sizes = {}
     for cfg in configs():
         al = alphabet(cfg)
-        sizes[f"depth{cfg[0]}"] = {"SMALL": sum(1 for _, lv in al if lv <= 0), "MED": sum(1 for _, lv in al if lv <= 1), "FULL": len(al),
-                                   "probes_len<=1": len(probes(cfg)), "probes_len>=2": len(compact_probes(cfg))}
+        sizes[f"depth{cfg[0]}"] = dict({LEVEL_NAMES[k]: sum(1 for _, lv in al if lv <= k) for k in LEVEL_NAMES},
+                                       **{"probes_len<=1": len(probes(cfg)), "probes_len>=2": len(compact_probes(cfg))})
     ex_cfg = (3, None, True, "one")
     return {
         "evaluations": stats.get("evals", 0),
@@ -719,12 +725,12 @@ def run(tier, seed):
         "rule": "operation sequences in which a lookup precedes a later add_table call that changed the mapping (the order-sensitive case); "
                 "every sequence is distinct by construction",
         "bound": f"tier={tier}: {len(configs())} configurations (depth 1-3 x dialect none/snowflake/postgres/bigquery x normalize T/F x initial "
-                 f"one-table/empty); plan (alphabet level 2=FULL 1=MED 0=SMALL, min len, max len) per initial state: {PLAN[tier]}; "
+                 f"one-table/empty); plan (alphabet 3=FULL 2=MED 1=SMALL 0=TINY, min len, max len) per initial state: {PLAN[tier]}; "
                  f"alphabet/probe sizes {sizes}; all sequences over the alphabet of the stated lengths",
         "exhaustive": True,
         "sequences": stats.get("sequences", 0),
         "sequences_with_mapping_change": stats.get("seq_with_mutation", 0),
-        "alphabet_depth3_none_normalize": {"SMALL": [list(o) for o, lv in alphabet(ex_cfg) if lv == 0], "MED_adds": [list(o) for o, lv in alphabet(ex_cfg) if lv == 1]},
+        "alphabets_depth3_none_normalize_one": {LEVEL_NAMES[k]: [list(o) for o, lv in alphabet(ex_cfg) if lv == k] for k in LEVEL_NAMES},
         "observations": {
             "mixed_depth_sequences": stats.get("mixed_depth_sequences", 0),
             "mixed_depth_differences": stats.get("mixed_depth_differences", 0),
